@@ -129,7 +129,9 @@ class AsyncTask(futures.FutureBase):
                     self.args,
                     self.kwargs,
                 )
-            except RuntimeError:
+            except Exception:
+                # the name is only used by the profiler: arguments whose repr() fails (by
+                # recursing too deep or in any other way) are left out of it
                 self._name = "%06d.%s" % (
                     self._id,
                     core_inspection.get_full_name(self.fn),
